@@ -35,10 +35,13 @@ Check C02_scan_eq_rule : forall bef t sold aft st r,
   end.
 Print Assumptions C02_scan_eq_rule.
 
-(* Without a user-supplied value: the loss is superficial exactly when the
-   rule says so; the ratio is min(sold, acquired, held)/sold and the denied
-   amount is the loss times that ratio (snapped to the cent when within
-   1e-10 of one: eff_cent_val). *)
+(* Without a user-supplied value: the ratio is min(sold, acquired, held)/sold
+   and the denied amount is the loss times that ratio (snapped to the cent
+   when within 1e-10 of one: eff_cent_val).  The sale carries a superficial
+   loss exactly when the rule says so AND that denied amount is not zero
+   (since the fix "treat a superficial loss that rounds to zero effective
+   cents as no superficial loss": before it, such a run ended in a panic and
+   the None case read [~ rule_superficial bef t aft all0]). *)
 Theorem C02_denied_amount : forall bef t sold aft st loss r,
   sd_sorted aft -> sd_sorted_desc bef ->
   delta_sfl exact bef t sold None aft st loss = Ok r ->
@@ -48,8 +51,11 @@ Theorem C02_denied_amount : forall bef t sold aft st loss r,
       rule_superficial bef t aft all0 /\
       sf_num info = Qcmin sold (Qcmin (rule_acquired bef t aft) (rule_held_end all0 t aft)) /\
       sf_den info = sold /\
-      sf_amount info = eff_cent_val (loss * (sf_num info / sold))
-  | None => ~ rule_superficial bef t aft all0
+      sf_amount info = eff_cent_val (loss * (sf_num info / sold)) /\
+      (sf_amount info < 0)%Qc
+  | None =>
+      rule_superficial bef t aft all0 ->
+      eff_cent_val (loss * rule_ratio sold (rule_acquired bef t aft) (rule_held_end all0 t aft)) = 0%Qc
   end.
 Proof. exact C02Scan.delta_sfl_auto_rule. Qed.
 Check C02_denied_amount : forall bef t sold aft st loss r,
@@ -61,8 +67,11 @@ Check C02_denied_amount : forall bef t sold aft st loss r,
       rule_superficial bef t aft all0 /\
       sf_num info = Qcmin sold (Qcmin (rule_acquired bef t aft) (rule_held_end all0 t aft)) /\
       sf_den info = sold /\
-      sf_amount info = eff_cent_val (loss * (sf_num info / sold))
-  | None => ~ rule_superficial bef t aft all0
+      sf_amount info = eff_cent_val (loss * (sf_num info / sold)) /\
+      (sf_amount info < 0)%Qc
+  | None =>
+      rule_superficial bef t aft all0 ->
+      eff_cent_val (loss * rule_ratio sold (rule_acquired bef t aft) (rule_held_end all0 t aft)) = 0%Qc
   end.
 Print Assumptions C02_denied_amount.
 
@@ -156,6 +165,26 @@ Example C02_nonvacuous :
   nth 1 (sfl_of (hist (buy 131 4 6) false)) None = None /\
   nth 2 (sfl_of (hist (buy 70 4 6) true)) None = Some ((-52, 3%positive), (4, 1%positive)) /\
   nth 2 (sfl_of (hist (buy 69 4 6) true)) None = None.
+Proof. vm_compute. repeat split. Qed.
+
+(* Non-vacuity of the None case of C02_denied_amount that is new with the fix
+   "treat a superficial loss that rounds to zero effective cents as no
+   superficial loss": 2 shares bought at 1.0000000001 on day 100, half a share
+   sold at 1 on day 110 (loss 0.00000000005, all of it superficial by the
+   rule: ratio 1).  The run is ACCEPTED, two rows are reported, the sale
+   carries no superficial loss and no adjustment row follows; the same history
+   with a purchase price of 1.1 (loss 0.05) reports the superficial loss
+   -0.05 and one adjustment row. *)
+Definition tiny_hist (price : Z * positive) : list tx :=
+  [mk 100 (Buy (q 2 1) (q (fst price) (snd price)) (q 0 1) (q 1 1) (q 1 1));
+   mk 110 (Sell (q 1 2) (q 1 1) (q 0 1) (q 1 1) (q 1 1) None)].
+Example C02_rounds_to_zero_nonvacuous :
+  snd (run exact None (tiny_hist (10000000001, 10000000000%positive))) = None /\
+  sfl_of (tiny_hist (10000000001, 10000000000%positive)) = [None; None] /\
+  snd (run dec None (tiny_hist (10000000001, 10000000000%positive))) = None /\
+  map (fun d => is_none (d_sfl d)) (fst (run dec None (tiny_hist (10000000001, 10000000000%positive)))) = [true; true] /\
+  snd (run exact None (tiny_hist (11, 10%positive))) = None /\
+  sfl_of (tiny_hist (11, 10%positive)) = [None; Some ((-1, 20%positive), (1, 2%positive)); None].
 Proof. vm_compute. repeat split. Qed.
 
 (* ======================================================================
